@@ -210,6 +210,9 @@ def run(ctx):
                 if nm == "begin":
                     ok = ok and is_zero(ps[1])
                 ctx.check(bool(ok), "R20.1", f, "owning-%s" % nm, "detail::enumerate::%s() returns %s (expected an iterator over the owned container's %s%s)" % (nm, [fmt(x) for x in r], nm, ", index 0" if nm == "begin" else ""), f)
+        from .common import rule_noexcept
+        ctx.rule("R20.5", "no function of the adaptors that runs the wrapped iterator's or the elements' own operations is declared noexcept: what the caller's iterator throws part-way reaches the caller after the elements visited so far")
+        rule_noexcept(ctx, "R20.5", lambda g: g.file.endswith(("lang/enumerate.hpp", "lang/reverse.hpp")), "the wrapped range's exception has to reach the caller", minimum=6)
         from .common import rule_no_move_from_member
         rule_no_move_from_member(ctx, "R20.1", lambda g: g.file.endswith(("lang/enumerate.hpp", "lang/reverse.hpp")),
                                  "begin() / end() / operator* can be asked again - a second traversal of the same enumerate / reverse object starts from an emptied iterator and visits nothing", minimum=8)
